@@ -119,6 +119,14 @@ mutual
     | a :: as => wrapConst false a :: wrapConstL as
 end
 
+/-- an `int` given where GROUP BY / ORDER BY take a position: `LiteralValue(str(n))` (never a bound parameter); the text of
+    an int has neither a point nor an exponent -/
+def isIntText (t : Str) : Bool := !t.isEmpty && t.all (fun ch => ch.isDigit || ch = '-')
+
+def positionOrConst (wrap : Arg → Term) : Arg → Term
+  | .const (.num t) => if isIntText t then .lit t none else wrap (.const (.num t))
+  | a => wrap a
+
 /-- `wrapper_cls(value)`: the wrapper applied directly (`set()`, `on_duplicate_key_update()`, `do_update()`), which
     wraps a term as well -/
 def wrapDirect (sqlite : Bool) : Arg → Option Term
@@ -454,6 +462,9 @@ def step (s : St) : Call → R
     let one (a : Arg) : Except Str Term :=
       match a with
       | .str n => (match s.r.from_ with | f :: _ => pure (mkField n (some (srcRef f))) | [] => .error "IndexError".toList)
+      | .const (.num t) =>
+          if isIntText t then pure (.lit t none)
+          else (match s.r.from_ with | _ :: _ => pure (.val (.num t) none) | [] => .error "IndexError".toList)
       | .const v => (match s.r.from_ with | _ :: _ => pure (.val v none) | [] => .error "IndexError".toList)
       | .term t => pure t
       | _ => .error "Unsupported".toList
@@ -480,7 +491,7 @@ def step (s : St) : Call → R
     let one (a : Arg) : Except Str (Term × Option Ord) :=
       match a with
       | .str n => (match s.r.from_ with | f :: _ => pure (mkField n (some (srcRef f)), order) | [] => .error "IndexError".toList)
-      | a => pure (wrapConst false a, order)
+      | a => pure (positionOrConst (wrapConst false) a, order)
     match args.mapM one with
     | .ok ts => pure { s with r := { s.r with orderbys := s.r.orderbys ++ ts } }
     | .error e => .error e
@@ -605,7 +616,7 @@ def stepS : SetOp → SCall → Except Str SetOp
       | .str n => (match (QR.ofQ base).from_ with
                    | f :: _ => pure (mkField n (some (srcRef f)), order)
                    | [] => .error "IndexError".toList)
-      | x => pure (wrapConst false x, order)
+      | x => pure (positionOrConst (wrapConst false) x, order)
     match args.mapM one with
     | .ok ts => pure (.mk base ops (obs ++ ts) l o a)
     | .error e => .error e
